@@ -1527,3 +1527,11 @@ LIB_CONSTS = {
 }
 
 from .libcalls import call_lib, call_libmethod, call_uninterp, call_object, cm_enter, cm_exit, instantiate_abstract, ext_getitem  # noqa: E402
+
+
+
+def instantiate_abstract(I, st, fv, pos, kws, node, opaque_kwargs=False):
+    """`cls(...)` where cls is a parameter constrained to the subclasses of an abstract class: an object of the abstract class
+    built by the *contract* of its constructor; its methods are called by the protocol contracts of the abstract class (each
+    concrete subclass is verified against the same clauses - behavioural subtyping)."""
+    return I.instantiate(st, fv, pos, kws, node, opaque_kwargs)
